@@ -110,6 +110,13 @@ Example C15_example :
   number_of_cards (2 ^ 51 + 1 + 2 ^ 60) = 3 /\ has (2 ^ 51 + 1) 1 = true /\ has (2 ^ 51 + 1) 3 = false.
 Proof. repeat split; vm_compute; reflexivity. Qed.
 
+From CKC Require Import Model.Proj Proofs.ProjC15.
+(* the `bcsetp` line of the correspondence check is the constant `1 1 1 1 1` on ALL lists of words: count = number
+   of distinct deck cards among the slots; each of them is a member; no bit above the 52 card bits; peeling lists
+   exactly those cards in deck order, then blank with the (empty) set unchanged; valid iff non-empty *)
+Theorem C15_projection : forall ws : list N, proj_bcsetp ws = [true; true; true; true; true].
+Proof. exact proj_bcsetp_const. Qed.
+
 Print Assumptions C15_members.
 Print Assumptions C15_from_hand.
 Print Assumptions C15_from_index.
@@ -123,3 +130,4 @@ Print Assumptions C15_peel.
 Print Assumptions C15_peel_all.
 Print Assumptions C15_rank_groups.
 Print Assumptions C15_masks.
+Print Assumptions C15_projection.
